@@ -19,6 +19,7 @@ from typing import Any, Dict, List, Optional, Tuple
 
 from sa import astq, ordertypes
 from sa.consteval import Folder, NotConst
+from sa.defuse import Inliner
 from sa.flow import FlowMap, facts
 from sa.model import AnalysisError, FuncInfo, norm
 from sa.sym import Aff, SymEnv, atom_of, compare_atoms, normalise_rel, show_atom
@@ -921,6 +922,37 @@ def least_available_ok(expr: ast.expr, avail: str) -> bool:
     return any(astq.match(expr, p) is not None for p in pats)
 
 
+def least_available_verdict(repo, expr: ast.expr, avail: str, n: int, extra: Optional[Dict[str, Any]] = None):
+    """Evaluate `expr` on availability tables of n flags (every False/True pattern of the first five flags, the rest True).
+    True: always the index of the first True flag;  (False, table, value): a table on which it is not;  None: not evaluable."""
+    k = min(n, 5)
+    for mask in range(2 ** k):
+        table = [not (mask >> b & 1) for b in range(k)] + [True] * (n - k)
+        if True not in table:
+            continue
+        try:
+            val = Folder(repo, MOD, {avail: table, **(extra or {})}).fold(expr)
+        except Exception:
+            return None
+        if val != table.index(True) or isinstance(val, bool):
+            return (False, table[: k + 1], val)
+    return True
+
+
+def judge_choice(chk, fi: FuncInfo, rule: str, site_node: ast.AST, expr: ast.expr, avail: str, n: int, key: str, extra: Optional[Dict[str, Any]] = None) -> None:
+    v = least_available_verdict(chk.repo, expr, avail, n, extra)
+    if v is True:
+        chk.ok(rule, fi.site(site_node), f"`{norm(expr)[:80]}` evaluates to the least available level on all 31 patterns of the first five flags ({n} flags)")
+    elif v is None:
+        if least_available_ok(expr, avail):
+            chk.ok(rule, fi.site(site_node), "the least level still available is chosen (idiom)")
+        else:
+            chk.error(rule, fi.site(site_node), f"choice `{norm(expr)[:90]}` of the level is neither evaluable nor a known idiom")
+    else:
+        _, table, val = v
+        chk.violation(rule, fi.site(site_node), f"`{norm(expr)[:90]}` does not choose the least available level: for flags {table}... it gives {val!r}, the first free level is {table.index(True)}", K(fi, key), expected={"available": table, "least": table.index(True)}, found={"expression": norm(expr), "value": repr(val)})
+
+
 def covers_all_earlier(it: ast.expr, i_name: str) -> bool:
     pats = [f"range({i_name})", f"range(0, {i_name})", f"reversed(range({i_name}))", f"range({i_name} - 1, -1, -1)", f"reversed(range(0, {i_name}))"]
     return any(astq.match(it, p) is not None for p in pats)
@@ -941,7 +973,7 @@ def check_fcfs(chk) -> None:
     elif o_init and o_init[0][1] is not None:
         init_ok = astq.match(o_init[0][1], "[0] * len(regions)") is not None
     chk.expect(init_ok, "fcfs-init", fi.where, "orders starts as one 0 per region", "orders is not initialised to len(regions) zeros", K(fi, "orders-init"))
-    outers = [n for n in fi.node.body if isinstance(n, ast.For)]
+    outers = [n for n in fi.node.body if isinstance(n, ast.For) and "orders" in {x.id for b in n.body for x in ast.walk(b) if isinstance(x, ast.Name)}]
     if len(outers) != 1 or not isinstance(outers[0].target, ast.Name):
         chk.error("fcfs-loop", fi.where, "expected one outer loop over region indices")
         return
@@ -1047,19 +1079,19 @@ def check_fcfs(chk) -> None:
     if len(stores) != 1:
         chk.violation("fcfs-choice", fi.site(outer), "orders[i] is not assigned exactly once per region", K(fi, "store"))
         return
-    v = astq.match(stores[0], f"orders[{i_name}] = V_")["V_"]
-    if isinstance(v, ast.Name):
-        d = [x for s, x in astq.assignments(outer, v.id) if x is not None]
-        v = d[0] if len(d) == 1 else v
-    chk.expect(
-        least_available_ok(v, "available") and outer.body.index(stores[0]) > outer.body.index(inner),
-        "fcfs-choice",
-        fi.site(stores[0]),
-        "the region gets the least level still available after the scan",
-        f"`{norm(v)[:90]}` does not choose the least available level after the scan",
-        K(fi, "choice"),
-        found=norm(v),
-    )
+    inl = Inliner(fi.node)
+    v = inl.inline(astq.match(stores[0], f"orders[{i_name}] = V_")["V_"], stores[0], stop=("available", "orders", "regions", i_name))
+    n_flags = 30
+    if av_assign:
+        av_v = inl.inline(av_assign[0].value, av_assign[0], stop=("regions",))
+        mm = astq.match(av_v, "[True] * N_") or astq.match(av_v, "N_ * [True]") or (astq.match(av_v.generators[0].iter, "range(N_)") if isinstance(av_v, ast.ListComp) and len(av_v.generators) == 1 else None)
+        nn = Folder(repo, MOD).try_fold(mm["N_"]) if mm else None
+        if isinstance(nn, int) and 1 <= nn <= 200:
+            n_flags = nn
+    if outer.body.index(stores[0]) < outer.body.index(inner):
+        chk.violation("fcfs-choice", fi.site(stores[0]), "the level is chosen before the scan over the earlier regions", K(fi, "choice-order"))
+    else:
+        judge_choice(chk, fi, "fcfs-choice", stores[0], v, "available", n_flags, "choice")
     rets = [r for r in astq.walk_no_nested(fi.node) if isinstance(r, ast.Return)]
     chk.expect(
         len(rets) == 1 and astq.match(rets[0].value, "self.__make_dot_bracket(regions, orders)") is not None,
@@ -1150,7 +1182,7 @@ def run(chk) -> None:
 ROBUST = {
     "alphabet-encoder", "alphabet-agree", "alphabet-30", "alphabet-matches", "alphabet-fcfs-levels", "alphabet-multistrand", "decoder-stacks-fresh",
     "conflict-predicate", "conflict-graph", "conflict-pairs", "stems-filter", "stems-run", "region-triple", "fill-width", "fill-trips", "fill-stores",
-    "decoder-lifo", "decoder-early-exit", "fcfs-scan-exit", "fcfs-available-reset", "fcfs-mark",
+    "decoder-lifo", "decoder-early-exit", "fcfs-scan-exit", "fcfs-available-reset", "fcfs-mark", "fcfs-choice", "greedy-choice",
     "components-walk", "greedy-perms", "greedy-earlier-exit", "greedy-mark", "product", "product-skip",
 }
 
